@@ -33,6 +33,7 @@ def leafOf (w : String) : Option Ty :=
   if w == "ei" then some (.enum .Int32)
   else if w == "eu" then some (.enum .UInt32)
   else if w.startsWith "@" then some (.other .Object)
+  else if w == "v" then some (.other .Void)
   else match w.toList with
     | [c] => (scalarOf c).map .scalar
     | [c, n] => do let s ← scalarOf c; let n ← digit? n; pure (.vec s n)
@@ -191,6 +192,13 @@ def handleProg (head tys sites : String) : String :=
         if ss.any fun s => s.ty ≥ ts.length ||
             !(if s.wrap == "" then globalKinds.contains s.kind else fnKinds.contains s.kind && wraps.contains s.wrap)
         then "bad-request"
+        -- `void` only as the whole type argument of a typed load that is type checked
+        else if tyStrs.zipIdx.any fun (str, k) =>
+            (tokens str).contains "v" &&
+              !(tokens str == ["v"] && (ss.filter fun s => s.ty == k).all fun s =>
+                  ["bload", "bload2", "rwbload", "rwbload2", "baload", "rwbaload"].contains s.kind &&
+                  ["m", "u", "me", "p", "a"].contains s.wrap)
+        then "bad-request"
         else
           let keys := tyStrs.zipIdx.map fun (s, k) => typeKey k s
           let refs := ts.zipIdx.map fun (t, k) => (⟨typeId keys k, t⟩ : TyRef)
@@ -205,7 +213,7 @@ def handleProg (head tys sites : String) : String :=
 def handle (op : String) (args : List String) : String :=
   match op, args with
   | "C19.check", [use, tys] =>
-    if !uses.contains use then "bad-request" else
+    if !uses.contains use || (tokens tys).contains "v" then "bad-request" else
     match sequenceOpt ((tys.splitOn ";").map parseType) with
     | some ts => showVerdict use ts (checkAll ts)
     | none => "bad-request"
